@@ -509,6 +509,32 @@ def float32_constant_probe(rep, r, n):
                           f'rms up to {np.abs(rms).max() / ulp:.0f} ulp (float32 ulp)', rp)
 
 
+def integer_constant_probe(rep, r, n):
+    """constant frames of integer dtype, values beyond the float32 integer range (2**24) included: the constant comes back exactly, RMS 0
+    (defect F65: integer data were copied to float32)"""
+    import warnings
+    import photutils.background as pb
+    for k in range(n):
+        dt, cval = [(np.int32, 16777217), (np.int64, 2 ** 31 + 1), (np.uint16, 65535), (np.int64, -(2 ** 26) - 3), (np.uint32, 2 ** 25 + 1), (np.int16, -32767)][k % 6]
+        by, bx = r.randint(8, 20), r.randint(8, 20)
+        ny, nx = by * r.randint(2, 3) + r.choice([0, 3]), bx * r.randint(2, 3) + r.choice([0, 5])
+        be = r.choice([pb.MeanBackground, pb.MedianBackground, pb.SExtractorBackground])
+        rp = dict(kind='integer-constant', value=int(cval), dtype=np.dtype(dt).name, shape=[ny, nx], box=[by, bx], bkg=be.__name__)
+        rep.case(('intconst', int(cval), np.dtype(dt).name, ny, nx, by, bx, be.__name__), True, kind=f'integer-constant:{np.dtype(dt).name}')
+        rep.probe_only += 1
+        try:
+            with warnings.catch_warnings():
+                warnings.simplefilter('ignore')
+                b = pb.Background2D(np.full((ny, nx), cval, dtype=dt), (by, bx), bkg_estimator=be())
+                bg, rms, med = np.asarray(b.background), np.asarray(b.background_rms), float(b.background_median)
+        except Exception as e:                                  # noqa: BLE001
+            rep.violation(f'constant-raises:{type(e).__name__}:{np.dtype(dt).name}', f'constant {np.dtype(dt).name} image made the call raise {e!r}', rp)
+            continue
+        if not (np.all(bg.astype(object) == int(cval)) and med == float(cval) and np.all(rms == 0)):
+            rep.violation(f'constant-not-exact:integer:{np.dtype(dt).name}', f'constant {np.dtype(dt).name} image {cval}: background range [{bg.min()}, {bg.max()}], '
+                          f'background_median {med!r}, rms max {rms.max()}', rp)
+
+
 def run(rep, tier):
     thorough = tier == 'thorough'
     scale = 12 if thorough else 1
@@ -529,6 +555,7 @@ def run(rep, tier):
     idw_correspondence(rep, r, 80 * scale)
     probes(rep, r, 36 * scale)
     float32_constant_probe(rep, r, 16 * scale)
+    integer_constant_probe(rep, r, 6 * scale)
 
 
 def replay(rep, data):
